@@ -82,19 +82,31 @@ func checkC08(p *Prog, r *Report) {
 			}
 		})
 	}
+	// … or be a hand-written recursion over the imports
+	var rw *ssa.Function
 	if visit == nil {
-		r.Fail("R08b", "getFfi walks the import graph", gf.Pos(), "no packages.Visit call", "")
-		return
+		rw = findRecursiveWalker(p, gf)
+		if rw == nil {
+			r.Fail("R08b", "getFfi walks the import graph", gf.Pos(), "neither a packages.Visit call nor a recursive walk over Package.Imports", "")
+			return
+		}
+		r.Func(FuncName(rw))
+	}
+	gfPaths := func() ([]ipath, bool) {
+		if rw != nil {
+			return p.ipathsKeeping(gf, map[*ssa.Function]bool{rw: true})
+		}
+		return p.ipaths(gf)
 	}
 	// an FFI name is returned only after the walk and only under the fact that at most one FFI was seen
-	if ips, ok := p.ipaths(gf); ok {
+	if ips, ok := gfPaths(); ok {
 		bad, n := "", 0
 		for _, ip := range ips {
 			if ip.Exit != "return" || len(ip.Ret) != 2 || ip.Ret[1] != "nil" || ip.Ret[0] == `"none"` {
 				continue
 			}
 			n++
-			walked := len(ip.eventsOf("golang.org/x/tools/go/packages.Visit")) > 0
+			walked := len(ip.eventsOf("golang.org/x/tools/go/packages.Visit")) > 0 || rw != nil && len(ip.eventsOf(fullName(rw))) > 0
 			counted := false
 			for k := range ip.Rels {
 				if strings.HasPrefix(k, "len(") && strings.HasSuffix(k, ") <= 1") || strings.HasPrefix(k, "1 == len(") || strings.HasPrefix(k, "len(") && strings.HasSuffix(k, ") == 1") {
@@ -109,6 +121,8 @@ func checkC08(p *Prog, r *Report) {
 	} else {
 		r.Unknown("R08b", "an FFI is chosen only after the whole walk, when at most one was seen", gf.Pos(), "paths of getFfi could not be enumerated")
 	}
+	var ffiT *strTable
+	visitChecks := func() bool {
 	cbFunc := func(v ssa.Value) *ssa.Function {
 		switch x := v.(type) {
 		case *ssa.Function:
@@ -121,7 +135,7 @@ func checkC08(p *Prog, r *Report) {
 	pre, post := cbFunc(visit.Call.Args[1]), cbFunc(visit.Call.Args[2])
 	if pre == nil || post == nil {
 		r.Fail("R08b", "getFfi callbacks", instrPos(visit), "pre/post callbacks are not function literals", "")
-		return
+		return false
 	}
 	findTest := func(f *ssa.Function) *tableTest {
 		ts := p.tableTests(f)
@@ -131,7 +145,6 @@ func checkC08(p *Prog, r *Report) {
 		return &ts[len(ts)-1]
 	}
 	preT, postT := findTest(pre), findTest(post)
-	var ffiT *strTable
 	if preT != nil {
 		ffiT = preT.Table
 	}
@@ -214,9 +227,18 @@ func checkC08(p *Prog, r *Report) {
 		}
 		r.Check("R08b", "post-visit records exactly the FFI packages", post.Pos(), ok, why)
 	}
+		return true
+	}
+	if visit != nil {
+		if !visitChecks() {
+			return
+		}
+	} else {
+		ffiT = c08RecursiveWalker(p, r, rw)
+	}
 	// refusal and result, on the abstract paths of getFfi (the walker spliced in)
 	{
-		ips, okp := p.ipaths(gf)
+		ips, okp := gfPaths()
 		okBound, nNil, nRefuse, nNone := okp, 0, 0, 0
 		why := ""
 		for _, ip := range ips {
@@ -251,16 +273,33 @@ func checkC08(p *Prog, r *Report) {
 			fmt.Sprintf("%s (refusing exits: %d, successful returns: %d)", why, nRefuse, nNil))
 		r.Check("R08b", "single FFI or none is returned", gf.Pos(), nNone > 0 && nNil > nNone, fmt.Sprintf("%d successful returns of which %d return \"none\"", nNil, nNone))
 		// walk starts at the package itself
-		okRoot := len(wf.Params) > 0 && sk(visit.Call.Args[0]) == "["+wf.Params[0].Name()+"]"
-		if okRoot && wf != gf {
-			okRoot = false
-			p.instrs(gf, func(b *ssa.BasicBlock, i int, in ssa.Instruction) {
-				if c, ok := in.(*ssa.Call); ok && calleeOf(&c.Call) == wf && len(c.Call.Args) > 0 && c.Call.Args[0] == ssa.Value(gf.Params[0]) {
-					okRoot = true
-				}
-			})
+		okRoot, rootWhat, rootPos := false, "", gf.Pos()
+		if visit != nil {
+			okRoot = len(wf.Params) > 0 && sk(visit.Call.Args[0]) == "["+wf.Params[0].Name()+"]"
+			rootWhat, rootPos = "roots are "+sk(visit.Call.Args[0]), instrPos(visit)
+			if okRoot && wf != gf {
+				okRoot = false
+				p.instrs(gf, func(b *ssa.BasicBlock, i int, in ssa.Instruction) {
+					if c, ok := in.(*ssa.Call); ok && calleeOf(&c.Call) == wf && len(c.Call.Args) > 0 && c.Call.Args[0] == ssa.Value(gf.Params[0]) {
+						okRoot = true
+					}
+				})
+			}
+		} else {
+			rootWhat = "the recursive walker is not started on getFfi's package parameter"
+			for _, g := range append([]*ssa.Function{gf}, directCallees(p, gf)...) {
+				p.instrs(g, func(b *ssa.BasicBlock, i int, in ssa.Instruction) {
+					if c, ok := in.(*ssa.Call); ok && calleeOf(&c.Call) == rw && g != rw {
+						for _, a := range c.Call.Args {
+							if a == ssa.Value(gf.Params[0]) || g != gf && len(g.Params) > 0 && a == ssa.Value(g.Params[0]) {
+								okRoot = true
+							}
+						}
+					}
+				})
+			}
 		}
-		r.Check("R08b", "walk starts from the translated package", instrPos(visit), okRoot, "roots are "+sk(visit.Call.Args[0]))
+		r.Check("R08b", "walk starts from the translated package", rootPos, okRoot, rootWhat)
 	}
 	// --- R08a tables
 	imp := p.Func(Mod, "Ctx.imports")
@@ -319,21 +358,36 @@ func checkC08(p *Prog, r *Report) {
 }
 
 func c08Header(p *Prog, r *Report) {
-	f := p.Func(Mod, "ffiHeaderFooter")
+	// by role: the function of the translator with results (string, string) that distinguishes the value "none"
+	var f *ssa.Function
+	par := ""
+	for _, g := range p.FuncsIn(Mod) {
+		res := g.Signature.Results()
+		if g.Parent() != nil || res.Len() != 2 || types.TypeString(res.At(0).Type(), nil) != "string" || types.TypeString(res.At(1).Type(), nil) != "string" {
+			continue
+		}
+		ps, _ := p.enumPaths(g, 1, 1000)
+		for _, pt := range ps {
+			for k := range pt.relsResolved() {
+				if strings.HasPrefix(k, `"none" == `) {
+					f, par = g, strings.TrimPrefix(k, `"none" == `)
+				}
+			}
+		}
+	}
 	if f == nil {
-		r.Anchor("R08c", "goose.ffiHeaderFooter")
+		r.Anchor("R08c", "the header/footer selection (a function returning (header, footer) that distinguishes \"none\")")
 		return
 	}
 	r.Func(FuncName(f))
 	paths, _ := p.enumPaths(f, 1, 1000)
-	par := f.Params[0].Name()
 	var noneOK, otherOK, seenNone, seenOther bool
 	for _, pt := range paths {
 		ret, isRet := pt.endsInReturn()
 		if !isRet {
 			continue
 		}
-		rs := pt.rels()
+		rs := pt.relsResolved()
 		hdr, ftr := resolveOnPath(pt, resolveLocal(ret.Results[0])), resolveOnPath(pt, resolveLocal(ret.Results[1]))
 		if rs[eqRel(`"none"`, par)] {
 			seenNone = true
@@ -361,6 +415,10 @@ func c08Header(p *Prog, r *Report) {
 					okHdr = true
 				}
 			}
+			// or spelled as a concatenation "… ffi." + ffi + "_prelude" …
+			if hk := sk(hdr); strings.Contains(hk, `ffi." + `+par+`)`) && strings.Contains(hk, `_prelude`) {
+				okHdr = true
+			}
 			otherOK = okf && ft == "" && okHdr
 		}
 	}
@@ -371,9 +429,17 @@ func c08Header(p *Prog, r *Report) {
 	okWire := false
 	if tpk != nil {
 		p.instrs(tpk, func(b *ssa.BasicBlock, i int, in ssa.Instruction) {
-			if c, ok := in.(*ssa.Call); ok && calleeOf(&c.Call) == f {
+			if c, ok := in.(*ssa.Call); ok && calleeOf(&c.Call) == f && len(c.Call.Args) > 0 {
 				if strings.HasSuffix(sk(c.Call.Args[0]), ".Ffi") {
 					okWire = true
+				}
+				// or the receiver is the package configuration whose Ffi field the function reads
+				if st, ok := deref(c.Call.Args[0].Type()).Underlying().(*types.Struct); ok && strings.HasSuffix(par, ".Ffi") {
+					for i := 0; i < st.NumFields(); i++ {
+						if st.Field(i).Name() == "Ffi" {
+							okWire = true
+						}
+					}
 				}
 			}
 		})
@@ -865,4 +931,107 @@ func findMappingIn(p *Prog, f *ssa.Function, key, param string) (string, map[str
 		}
 	}
 	return "", nil, false
+}
+
+// findRecursiveWalker: a function reachable from gf (two call levels) that takes a *packages.Package and
+// calls itself on the elements of that package's Imports.
+func findRecursiveWalker(p *Prog, gf *ssa.Function) *ssa.Function {
+	cands := append([]*ssa.Function{gf}, directCallees(p, gf)...)
+	for _, g := range directCallees(p, gf) {
+		cands = append(cands, directCallees(p, g)...)
+	}
+	for _, w := range cands {
+		var pkgP *ssa.Parameter
+		for _, pa := range w.Params {
+			if types.TypeString(pa.Type(), nil) == "*golang.org/x/tools/go/packages.Package" {
+				pkgP = pa
+			}
+		}
+		if pkgP == nil {
+			continue
+		}
+		self := false
+		p.instrs(w, func(b *ssa.BasicBlock, i int, in ssa.Instruction) {
+			if c, ok := in.(*ssa.Call); ok && calleeOf(&c.Call) == w {
+				for _, a := range c.Call.Args {
+					if strings.Contains(sk(a), "range("+pkgP.Name()+".Imports)") {
+						self = true
+					}
+				}
+			}
+		})
+		if self {
+			return w
+		}
+	}
+	return nil
+}
+
+// c08RecursiveWalker: the hand-written walk records exactly the FFI packages it reaches and descends exactly
+// below the packages that are not FFIs. Returns the FFI table it tests.
+func c08RecursiveWalker(p *Prog, r *Report, w *ssa.Function) *strTable {
+	var pkgP *ssa.Parameter
+	for _, pa := range w.Params {
+		if types.TypeString(pa.Type(), nil) == "*golang.org/x/tools/go/packages.Package" {
+			pkgP = pa
+		}
+	}
+	var tt *tableTest
+	for _, t := range p.tableTests(w) {
+		if sk(t.Key) == pkgP.Name()+".PkgPath" {
+			t2 := t
+			tt = &t2
+		}
+	}
+	if tt == nil {
+		r.Fail("R08b", "the walk tests the FFI table", w.Pos(), "the recursive walker does not test a constant table of FFI packages on the visited package's PkgPath", "")
+		return nil
+	}
+	rm := p.Rels(w)
+	// descends exactly below non-FFI packages, into every import
+	okDesc, whyDesc, nSelf := true, "", 0
+	p.instrs(w, func(b *ssa.BasicBlock, i int, in ssa.Instruction) {
+		c, ok := in.(*ssa.Call)
+		if !ok || calleeOf(&c.Call) != w {
+			return
+		}
+		nSelf++
+		rs := p.RelsAt(rm, c)
+		if !tt.holds(rs, false) {
+			okDesc, whyDesc = false, "the walk descends below a package without the fact that it is not an FFI (the dependencies of an FFI are not uses of the translated package)"
+		}
+		for k := range rs {
+			switch {
+			case k == tt.OkKey+" == false" || k == "false == "+tt.OkKey:
+			case strings.Contains(k, "next(range(") && strings.HasSuffix(k, "#0 == true"):
+			case isLoopBoundFact(k):
+			case strings.HasSuffix(k, "["+pkgP.Name()+"] == false") || strings.HasPrefix(k, "false == ") && strings.HasSuffix(k, "["+pkgP.Name()+"]"):
+				// not visited before
+			default:
+				okDesc, whyDesc = false, "an import is followed only under the additional condition "+k
+			}
+		}
+	})
+	r.Check("R08b", "pre-visit prunes exactly at FFI packages", w.Pos(), okDesc && nSelf == 1, fmt.Sprintf("%s (%d recursive calls)", whyDesc, nSelf))
+	// records exactly the FFI packages
+	okRec, whyRec, nUpd := true, "", 0
+	p.instrs(w, func(b *ssa.BasicBlock, i int, in ssa.Instruction) {
+		mu, ok := in.(*ssa.MapUpdate)
+		if !ok {
+			return
+		}
+		if sk(mu.Key) == pkgP.Name() {
+			return // the visited set
+		}
+		nUpd++
+		rs := p.RelsAt(rm, mu)
+		if !tt.holds(rs, true) {
+			okRec, whyRec = false, "an FFI is recorded without the lookup having succeeded"
+		}
+		if sk(mu.Key) != tt.ValKey {
+			okRec, whyRec = false, "the recorded key is "+sk(mu.Key)+", not the FFI name found in the table"
+		}
+	})
+	r.Check("R08b", "post-visit records exactly the FFI packages", w.Pos(), okRec && nUpd == 1, fmt.Sprintf("%s (%d recordings)", whyRec, nUpd))
+	return tt.Table
 }
